@@ -2,11 +2,12 @@
 # Usage: tools/seed_eval.sh <patch.diff> <tier> <check id>...
 # Applies a seeded change to a scratch worktree of /repo (HEAD), runs the named checks against it
 # (VERIF_REPO), prints one line per check, and removes the worktree.  Never touches /repo's tree.
+# SEED_BASE=<commit>: base the scratch worktree on that commit instead of HEAD (seeds whose code site a later fix replaced).
 PATCH="$(readlink -f "$1")"; TIER="$2"; shift 2
 HERE="$(cd "$(dirname "$0")/.." && pwd)"
 WT="$(mktemp -d /tmp/seedeval_XXXXXX)"
 rmdir "$WT"
-git -C /repo worktree add -q --detach "$WT" HEAD || exit 2
+git -C /repo worktree add -q --detach "$WT" "${SEED_BASE:-HEAD}" || exit 2
 if ! git -C "$WT" apply "$PATCH"; then
   echo "PATCH DOES NOT APPLY: $PATCH"
   git -C /repo worktree remove --force "$WT"
